@@ -6,6 +6,7 @@ import (
 	"bytes"
 	"flag"
 	"fmt"
+	"io"
 	"os"
 	"sort"
 	"strconv"
@@ -21,6 +22,7 @@ type vfFault struct {
 	At      int    // byte offset of the cut / index of the failing Write
 	Err     bool   // cut: deliver an error instead of EOF
 	Partial int    // write: bytes the failing Write accepts
+	EOFErr  bool   `json:",omitempty"` // write: the failing Write returns io.EOF, as a closed x/crypto/ssh channel does (seed F02)
 }
 
 type vfCaseC04 struct {
@@ -115,6 +117,9 @@ func vfC04Session(ctx *vfCtx, c *vfCaseC04, fault vfFault) *vfC04Run {
 		case "write":
 			l.C2S.failWrite = fault.At
 			l.C2S.failPartial = fault.Partial
+			if fault.EOFErr {
+				l.C2S.failErr = io.EOF
+			}
 		}
 	})
 	if err != nil {
@@ -325,8 +330,11 @@ func vfRunC04(ctx *vfCtx, c vfCaseC04) {
 	}
 	// client->server write failures
 	for w := 0; w < ref.C2SWrites; w++ {
-		for _, partial := range []int{0, 3} {
+		for _, partial := range []int{0, 3, -1} {
 			f := vfFault{Kind: "write", At: w, Partial: partial}
+			if partial < 0 {
+				f.Partial, f.EOFErr = 0, true // the transport reports its end as io.EOF
+			}
 			vfJournal("C04", "one", vfMustJSON(vfCaseC04One{vfCaseC04: c, Fault: f}))
 			run := vfC04SessionAlt(ctx, &c, f)
 			vfC04Judge(ctx, &c, f, ref, run)
@@ -521,7 +529,7 @@ func TestVerifC04(t *testing.T) {
 			c := vfGenC04(rt)
 			f := vfFault{Kind: "cut", At: rapid.IntRange(0, 600).Draw(rt, "cutat"), Err: rapid.Bool().Draw(rt, "aserr")}
 			if rapid.IntRange(0, 4).Draw(rt, "writefault") == 0 {
-				f = vfFault{Kind: "write", At: rapid.IntRange(0, 20).Draw(rt, "widx"), Partial: rapid.SampledFrom([]int{0, 1, 3, 4, 5, 9}).Draw(rt, "partial")}
+				f = vfFault{Kind: "write", At: rapid.IntRange(0, 20).Draw(rt, "widx"), Partial: rapid.SampledFrom([]int{0, 1, 3, 4, 5, 9}).Draw(rt, "partial"), EOFErr: rapid.Bool().Draw(rt, "eoferr")}
 			}
 			return vfCaseC04One{vfCaseC04: c, Fault: f}
 		}})
